@@ -52,7 +52,7 @@ pub enum Out {
     ResList(Result<Vec<String>, ()>),
 }
 
-pub const ATTRS: &[&str] = &["aaa", "bbb", "abc", "BBB", "true", "abcdefgh", "foo1", "123", "ab", "abcdefghi", "a.b", "", "a\0b"];
+pub const ATTRS: &[&str] = &["aaa", "bbb", "abc", "BBB", "true", "True", "TRUE", "abcdefgh", "foo1", "123", "ab", "abcdefghi", "a.b", "", "a\0b"];
 pub const KEYS: &[&str] = &["ca", "nu", "1a", "CA", "aa", "a1", "c", "cal", "h0", "", " a"];
 pub const TKEYS: &[&str] = &["h0", "k0", "H0", "a0", "0h", "ca", "h", "h00", ""];
 pub const TAGS: &[&str] = &["a", "u", "x", "t", "aaa", "bbb", "BBB", "abcdefgh", "1", "abcdefghi", "", "a-b"];
@@ -65,8 +65,20 @@ pub const TLANGS: &[&str] = &["en", "en-US", "und", "fr-Latn-CA-valencia", "zh-h
 fn sel(v: &'static [&'static str]) -> SBoxedStrategy<String> {
     proptest::sample::select(v.to_vec()).prop_map(|s| s.to_string()).sboxed()
 }
+/// mostly the small colliding pool, sometimes a generated argument of the right shape under a
+/// random case mask (so the argument space is not limited to a hand-written list)
+fn sel_or(v: &'static [&'static str], g: SBoxedStrategy<String>) -> SBoxedStrategy<String> {
+    prop_oneof![
+        6 => sel(v),
+        1 => (g, any::<u64>()).prop_map(|(s, m)| s.chars().enumerate().map(|(i, c)| if (m >> (i % 64)) & 1 == 1 { c.to_ascii_uppercase() } else { c }).collect::<String>()),
+    ]
+    .sboxed()
+}
+fn attr() -> SBoxedStrategy<String> {
+    sel_or(ATTRS, crate::gen::s_value())
+}
 fn vals() -> SBoxedStrategy<Vec<String>> {
-    vec(sel(ATTRS), 0..=3).sboxed()
+    vec(attr(), 0..=3).sboxed()
 }
 
 pub fn s_op() -> SBoxedStrategy<Op> {
@@ -75,7 +87,7 @@ pub fn s_op() -> SBoxedStrategy<Op> {
         1 => Just(Op::ClearLanguage),
         2 => proptest::option::weighted(0.8, sel(SCRIPTS)).prop_map(Op::SetScript),
         2 => proptest::option::weighted(0.8, sel(REGIONS)).prop_map(Op::SetRegion),
-        3 => vec(sel(VARIANTS), 0..=4).prop_map(Op::SetVariants),
+        3 => vec(sel_or(VARIANTS, crate::gen::s_variant()), 0..=4).prop_map(Op::SetVariants),
         1 => Just(Op::ClearVariants),
         2 => sel(VARIANTS).prop_map(Op::HasVariant),
         1 => Just(Op::Maximize),
@@ -83,11 +95,11 @@ pub fn s_op() -> SBoxedStrategy<Op> {
     ]
     .sboxed();
     let b = prop_oneof![
-        4 => (sel(KEYS), vals()).prop_map(|(k, v)| Op::SetKeyword(k, v)),
+        4 => (sel_or(KEYS, crate::gen::s_key()), vals()).prop_map(|(k, v)| Op::SetKeyword(k, v)),
         3 => sel(KEYS).prop_map(Op::RemoveKeyword),
         1 => Just(Op::ClearKeywords),
         2 => sel(KEYS).prop_map(Op::Keyword),
-        4 => sel(ATTRS).prop_map(Op::SetAttribute),
+        4 => attr().prop_map(Op::SetAttribute),
         3 => sel(ATTRS).prop_map(Op::RemoveAttribute),
         2 => sel(ATTRS).prop_map(Op::HasAttribute),
         1 => Just(Op::ClearAttributes),
@@ -96,14 +108,14 @@ pub fn s_op() -> SBoxedStrategy<Op> {
     let c = prop_oneof![
         2 => sel(TLANGS).prop_map(Op::SetTlang),
         1 => Just(Op::ClearTlang),
-        4 => (sel(TKEYS), vals()).prop_map(|(k, v)| Op::SetTfield(k, v)),
+        4 => (sel_or(TKEYS, crate::gen::s_tkey()), vals()).prop_map(|(k, v)| Op::SetTfield(k, v)),
         3 => sel(TKEYS).prop_map(Op::RemoveTfield),
         1 => Just(Op::ClearTfields),
         2 => sel(TKEYS).prop_map(Op::Tfield),
     ]
     .sboxed();
     let d = prop_oneof![
-        4 => sel(TAGS).prop_map(Op::AddTag),
+        4 => sel_or(TAGS, crate::gen::s_private()).prop_map(Op::AddTag),
         3 => sel(TAGS).prop_map(Op::RemoveTag),
         2 => sel(TAGS).prop_map(Op::HasTag),
         1 => Just(Op::ClearTags),
